@@ -15,6 +15,7 @@ import (
 	"syscall"
 	"time"
 
+	"github.com/wundergraph/graphql-go-tools/v2/pkg/engine/plan"
 	"github.com/wundergraph/graphql-go-tools/v2/pkg/engine/postprocess"
 
 	"verif/internal/vk"
@@ -69,8 +70,13 @@ func repoFrame(stack string) string {
 var progress atomic.Int64
 var currentCase atomic.Pointer[planSpec]
 
-// evaluate runs one plan through Process and judges the tree.
-func evaluate(ps *planSpec, withSimulation bool) (res *caseResult) {
+const reusedSuffix = " [Processor reused]"
+
+// evaluate runs one plan through Process and judges the tree. When ps.Before
+// is not empty, ONE Processor first processes those plans and then the plan
+// under judgement, whose tree is in addition compared with the tree a fresh
+// Processor builds (freshSig; "" = compute it here).
+func evaluate(ps *planSpec, withSimulation bool, freshSig string) (res *caseResult) {
 	res = &caseResult{}
 	e := expect(ps)
 	res.exp = e
@@ -82,9 +88,34 @@ func evaluate(ps *planSpec, withSimulation bool) (res *caseResult) {
 		res.skipped = "declared and implied dependencies form a cycle"
 		return
 	}
+	for i := range ps.Before {
+		if be := expect(&ps.Before[i]); be.inconsistent || be.cyclic {
+			res.skipped = "an earlier plan of the history is not a plan"
+			return
+		}
+	}
+	reused := len(ps.Before) > 0
+	if reused && freshSig == "" {
+		solo := ps.clone()
+		solo.Before = nil
+		fr := evaluate(solo, false, "")
+		if fr.panicked || fr.tree == nil {
+			res.skipped = "no tree from a fresh Processor to compare with"
+			return
+		}
+		freshSig = fr.tree.signature()
+	}
+	earlier := make([]*plan.SynchronousResponsePlan, len(ps.Before))
+	for i := range ps.Before {
+		earlier[i] = buildPlan(&ps.Before[i])
+	}
 	p := buildPlan(ps)
 	if setMapDesc != nil {
 		setMapDesc(ps.MapDesc)
+	}
+	suffix := ""
+	if reused {
+		suffix = reusedSuffix
 	}
 	currentCase.Store(ps)
 	progress.Add(1)
@@ -93,22 +124,35 @@ func evaluate(ps *planSpec, withSimulation bool) (res *caseResult) {
 			if r := recover(); r != nil {
 				res.panicked = true
 				st := string(debug.Stack())
-				res.panicAt = organiser(ps.Mode) + ": " + repoFrame(st)
+				res.panicAt = organiser(ps.Mode) + ": " + repoFrame(st) + suffix
 				res.panicMsg = fmt.Sprintf("Process panicked: %v\n%s", r, clipStr(st, 1800))
 			}
 		}()
-		postprocess.NewProcessor(processorOptions(ps.Mode)...).Process(p)
+		proc := postprocess.NewProcessor(processorOptions(ps.Mode)...)
+		for _, ep := range earlier {
+			proc.Process(ep)
+		}
+		proc.Process(p)
 	}()
 	progress.Add(1)
 	if res.panicked {
 		return
 	}
 	if p.Response.RawFetches != nil {
-		res.jud = &judgement{failures: []failure{{clause: clauseOnce, site: organiser(ps.Mode) + ": raw fetches not consumed", detail: "Response.RawFetches is not nil after Process"}}}
+		res.jud = &judgement{failures: []failure{{clause: clauseOnce, site: organiser(ps.Mode) + ": raw fetches not consumed" + suffix, detail: "Response.RawFetches is not nil after Process"}}}
 		return
 	}
 	res.tree = analyzeTree(p.Response.Fetches)
 	res.jud = judge(ps, e, p.Response.Fetches, res.tree, withSimulation)
+	if reused {
+		for i := range res.jud.failures {
+			res.jud.failures[i].site += suffix
+		}
+		if sig := res.tree.signature(); sig != freshSig && res.jud.oracleSplit == "" {
+			res.jud.failures = append(res.jud.failures, failure{clause: clauseReuse, site: organiser(ps.Mode) + ": tree differs from the tree of a fresh Processor",
+				detail: fmt.Sprintf("after %d earlier plan(s) the Processor builds %s, a fresh Processor builds %s (shape, then fetch id<dependency ids)", len(ps.Before), sig, freshSig)})
+		}
+	}
 	return
 }
 
@@ -123,7 +167,7 @@ func clipStr(s string, n int) string {
 // shrinking and classification
 
 func stillFails(ps *planSpec, clause, siteTail string) bool {
-	r := evaluate(ps, false)
+	r := evaluate(ps, false, "")
 	for _, f := range r.failures() {
 		if f.clause == clause && siteSuffix(f.site) == siteTail {
 			return true
@@ -173,24 +217,13 @@ func removeFetch(ps *planSpec, id int) *planSpec {
 	return c
 }
 
-// shrink greedily simplifies a failing plan while the same clause fails at the
-// same site (organiser prefix ignored): drop requests, drop dependency edges,
-// simplify decorations, mode and raw order.
-func shrink(ps *planSpec, clause, siteTail string) *planSpec {
-	cur := ps.clone()
-	changed := false
-	try := func(c *planSpec) bool {
-		if stillFails(c, clause, siteTail) {
-			cur = c
-			changed = true
-			return true
-		}
-		return false
-	}
-	// first try to get rid of the path decoration altogether: every fetch at
-	// the root and the implied nested dependencies declared explicitly
-	if e := expect(cur); !e.cyclic && !e.inconsistent {
-		c := cur.clone()
+// simplerPlans returns the one-step simplifications of the fetches / raw order
+// of one plan (Before, Mode, MapDesc untouched), most drastic first.
+func simplerPlans(ps *planSpec) []*planSpec {
+	var out []*planSpec
+	// every fetch at the root, implied nested dependencies declared explicitly
+	if e := expect(ps); !e.cyclic && !e.inconsistent {
+		c := ps.clone()
 		decorated := false
 		for i := range c.Fetches {
 			f := &c.Fetches[i]
@@ -203,79 +236,94 @@ func shrink(ps *planSpec, clause, siteTail string) *planSpec {
 			}
 		}
 		if decorated {
-			try(c)
+			out = append(out, c)
 		}
 	}
-	for changed = true; changed; {
+	if len(ps.Fetches) > 1 {
+		for _, f := range ps.Fetches {
+			out = append(out, removeFetch(ps, f.ID))
+		}
+	}
+	for i := range ps.Fetches {
+		for k := range ps.Fetches[i].Deps {
+			c := ps.clone()
+			c.Fetches[i].Deps = append(append([]int{}, ps.Fetches[i].Deps[:k]...), ps.Fetches[i].Deps[k+1:]...)
+			out = append(out, c)
+		}
+	}
+	for i := range ps.Fetches {
+		if ps.Fetches[i].Path != 0 {
+			c := ps.clone()
+			c.Fetches[i].Path = 0
+			out = append(out, c)
+		}
+		if ps.Fetches[i].Kind != kindPlain {
+			c := ps.clone()
+			c.Fetches[i].Kind = kindPlain
+			out = append(out, c)
+		}
+		if ps.Fetches[i].Same != ps.Fetches[i].ID {
+			c := ps.clone()
+			c.Fetches[i].Same = c.Fetches[i].ID
+			out = append(out, c)
+		}
+	}
+	byID := append([]int(nil), ps.Order...)
+	sort.Ints(byID)
+	if !equalInts(byID, ps.Order) {
+		c := ps.clone()
+		c.Order = byID
+		out = append(out, c)
+	}
+	return out
+}
+
+// shrink greedily simplifies a failing case while the same clause fails at the
+// same site (organiser prefix ignored): drop earlier plans of the history, drop
+// requests, drop dependency edges, simplify decorations, mode and raw order -
+// of the plan under judgement and of the earlier plans.
+func shrink(ps *planSpec, clause, siteTail string) *planSpec {
+	cur := ps.clone()
+	budget := 600 // evaluations
+	for changed := true; changed && budget > 0; {
 		changed = false
-		for _, f := range cur.Fetches {
-			if len(cur.Fetches) > 1 && try(removeFetch(cur, f.ID)) {
-				break
-			}
+		var cands []*planSpec
+		for i := range cur.Before {
+			c := cur.clone()
+			c.Before = append(c.Before[:i], c.Before[i+1:]...)
+			cands = append(cands, c)
 		}
-		if changed {
-			continue
+		for _, sp := range simplerPlans(cur) {
+			sp.Before = cur.clone().Before
+			cands = append(cands, sp)
 		}
-	edges:
-		for i := range cur.Fetches {
-			for k := range cur.Fetches[i].Deps {
+		for i := range cur.Before {
+			for _, sp := range simplerPlans(&cur.Before[i]) {
 				c := cur.clone()
-				c.Fetches[i].Deps = append(append([]int{}, cur.Fetches[i].Deps[:k]...), cur.Fetches[i].Deps[k+1:]...)
-				if try(c) {
-					break edges
-				}
+				sp.Before = nil
+				c.Before[i] = *sp
+				cands = append(cands, c)
 			}
-		}
-		if changed {
-			continue
-		}
-		for i := range cur.Fetches {
-			if cur.Fetches[i].Path != 0 {
-				c := cur.clone()
-				c.Fetches[i].Path = 0
-				if try(c) {
-					break
-				}
-			}
-			if cur.Fetches[i].Kind != kindPlain {
-				c := cur.clone()
-				c.Fetches[i].Kind = kindPlain
-				if try(c) {
-					break
-				}
-			}
-			if cur.Fetches[i].Same != cur.Fetches[i].ID {
-				c := cur.clone()
-				c.Fetches[i].Same = c.Fetches[i].ID
-				if try(c) {
-					break
-				}
-			}
-		}
-		if changed {
-			continue
 		}
 		if cur.Mode&modeMulti != 0 {
 			c := cur.clone()
 			c.Mode &^= modeMulti
-			if try(c) {
-				continue
-			}
+			cands = append(cands, c)
 		}
 		if cur.MapDesc {
 			c := cur.clone()
 			c.MapDesc = false
-			if try(c) {
-				continue
-			}
+			cands = append(cands, c)
 		}
-		byID := append([]int(nil), cur.Order...)
-		sort.Ints(byID)
-		if !equalInts(byID, cur.Order) {
-			c := cur.clone()
-			c.Order = byID
-			if try(c) {
-				continue
+		for _, c := range cands {
+			budget--
+			if stillFails(c, clause, siteTail) {
+				cur = c
+				changed = true
+				break
+			}
+			if budget <= 0 {
+				break
 			}
 		}
 	}
@@ -285,6 +333,17 @@ func shrink(ps *planSpec, clause, siteTail string) *planSpec {
 // classOf is the structural class of a (shrunk) plan: its decorated DAG up to
 // relabelling of the fetch ids; raw order and mode are not part of it.
 func classOf(ps *planSpec) string {
+	if len(ps.Before) == 0 {
+		return classOfFetches(ps)
+	}
+	var parts []string
+	for i := range ps.Before {
+		parts = append(parts, classOfFetches(&ps.Before[i]))
+	}
+	return "after [" + strings.Join(parts, "] then [") + "] on one Processor: " + classOfFetches(ps)
+}
+
+func classOfFetches(ps *planSpec) string {
 	var ids []int
 	deps := map[int][]int{}
 	deco := map[int]string{}
@@ -317,29 +376,39 @@ func classOf(ps *planSpec) string {
 // tier configuration
 
 type tierCfg struct {
-	maxN          int
-	allOrdersUpTo int
-	pathMenuSize  [maxN + 1]int  // paths family: size of the path menu prefix at N (0 = family not run at N)
-	multiAtN      [maxN + 1]bool // multi family run at N
-	kindMenuSize  [maxN + 1]int  // multi family: size of the kind menu prefix at N (0 = no product of kinds at N)
-	fixedKinds    [maxN + 1]int  // multi family, fixed kind schemes (fetches with dependencies are entity fetches): bit 0 = all on data source s1, bit 1 = data source by id parity
-	multiSchemes  [maxN + 1]int  // multi family: 1 = all fetches at the root, 2 = also "entity fetches nested at a"
-	dedupMaxBase  int            // dedup family: base DAGs on <= this many ids (+1 identical copy)
-	mapDescUpTo   int            // descending map order explored for plans with <= this many requests
-	simulateUpTo  int            // executor simulation (formulation C) for plans with <= this many requests
+	maxN            int
+	allOrdersUpTo   int
+	pathMenuSize    [maxN + 1]int  // paths family: size of the path menu prefix at N (0 = family not run at N)
+	multiAtN        [maxN + 1]bool // multi family run at N
+	kindMenuSize    [maxN + 1]int  // multi family: size of the kind menu prefix at N (0 = no product of kinds at N)
+	fixedKinds      [maxN + 1]int  // multi family, fixed kind schemes (fetches with dependencies are entity fetches): bit 0 = all on data source s1, bit 1 = data source by id parity
+	multiSchemes    [maxN + 1]int  // multi family: 1 = all fetches at the root, 2 = also "entity fetches nested at a"
+	dedupMaxBase    int            // dedup family: base DAGs on <= this many ids (+1 identical copy)
+	mapDescUpTo     int            // descending map order explored for plans with <= this many requests
+	byIDOnlyAtN     [maxN + 1]bool // at N only the raw order "by id" (the enumeration is over LABELLED DAGs, so every relative position of ids and dependencies still occurs)
+	lightAboveEdges [maxN + 1]int  // at N, DAGs with more dependency edges than this run only family paths in mode waves (0 = no such restriction)
+	histVariantsN   int            // histories on one Processor: pool = DAGs on <= this many ids in three variants (plain, entity fetches, nested sources) ...
+	histPlainN      int            // ... plus the plain plans of the DAGs on <= this many ids; every ordered pair of the pool
+	histTriplesN    int            // every ordered triple of the plain plans of the DAGs on <= this many ids (0 = none)
+	simulateUpTo    int            // executor simulation (formulation C) for plans with <= this many requests
 }
 
 var quickCfg = tierCfg{
-	maxN:          4,
-	allOrdersUpTo: 4,
-	pathMenuSize:  [maxN + 1]int{0, 4, 4, 4, 3, 0, 0},
-	multiAtN:      [maxN + 1]bool{false, true, true, true, true, false, false},
-	kindMenuSize:  [maxN + 1]int{0, 3, 3, 3, 2, 0, 0},
-	fixedKinds:    [maxN + 1]int{0, 0, 0, 0, 2, 0, 0},
-	multiSchemes:  [maxN + 1]int{0, 2, 2, 2, 1, 0, 0},
-	dedupMaxBase:  3,
-	mapDescUpTo:   4,
-	simulateUpTo:  4,
+	maxN:            6,
+	allOrdersUpTo:   4,
+	pathMenuSize:    [maxN + 1]int{0, 4, 4, 4, 3, 1, 1},
+	multiAtN:        [maxN + 1]bool{false, true, true, true, true, true, true},
+	kindMenuSize:    [maxN + 1]int{0, 3, 3, 3, 2, 0, 0},
+	fixedKinds:      [maxN + 1]int{0, 0, 0, 0, 2, 2, 2},
+	multiSchemes:    [maxN + 1]int{0, 2, 2, 2, 1, 1, 1},
+	dedupMaxBase:    3,
+	mapDescUpTo:     4,
+	simulateUpTo:    4,
+	byIDOnlyAtN:     [maxN + 1]bool{false, false, false, false, false, false, true},
+	lightAboveEdges: [maxN + 1]int{0, 0, 0, 0, 0, 0, 6},
+	histVariantsN:   3,
+	histPlainN:      3,
+	histTriplesN:    0,
 }
 
 var thoroughCfg = tierCfg{
@@ -353,6 +422,9 @@ var thoroughCfg = tierCfg{
 	dedupMaxBase:  4,
 	mapDescUpTo:   4,
 	simulateUpTo:  5,
+	histVariantsN: 3,
+	histPlainN:    4,
+	histTriplesN:  3,
 }
 
 // ---------------------------------------------------------------------------
@@ -364,6 +436,9 @@ type explorer struct {
 
 	shapes  map[uint64]struct{}
 	sampled map[string]bool
+	// freshSig: signature of the tree a fresh Processor builds for the plan that
+	// runCase is about to judge after a history (set by exploreHistories)
+	freshSig string
 	// batched counters
 	evals, states, transitions, traces int64
 	counters                           map[string]int64
@@ -391,7 +466,7 @@ const structureBudgetShare = 0.6
 // runCase evaluates one plan, records it and returns the tree shape ("" when
 // the plan was not run or has no tree).
 func (x *explorer) runCase(ps *planSpec) string {
-	r := evaluate(ps, len(ps.Fetches) <= x.cfg.simulateUpTo)
+	r := evaluate(ps, len(ps.Fetches) <= x.cfg.simulateUpTo, x.freshSig)
 	if r.skipped != "" {
 		x.counters["not_a_plan: "+r.skipped]++
 		return ""
@@ -465,7 +540,7 @@ func (x *explorer) runCase(ps *planSpec) string {
 // report shrinks the failing plan for this (clause, site) and records the violation.
 func (x *explorer) report(ps *planSpec, f failure) {
 	small := shrink(ps, f.clause, siteSuffix(f.site))
-	r := evaluate(small, false)
+	r := evaluate(small, false, "")
 	site, detail := f.site, f.detail
 	for _, g := range r.failures() {
 		if g.clause == f.clause && siteSuffix(g.site) == siteSuffix(f.site) {
@@ -489,7 +564,7 @@ func checkStructure(run *vk.Run) {
 	}
 	x := &explorer{run: run, cfg: cfg, shapes: map[uint64]struct{}{}, sampled: map[string]bool{}, counters: map[string]int64{}}
 
-	run.Rule("part (a): every labelled dependency DAG on N fetch ids (N <= max_n; unique layered enumeration checked against a brute-force enumeration for N <= 4 and against OEIS A003024), as a flat plan of *resolve.SingleFetch, through postprocess.NewProcessor(opts).Process. Raw fetch-list order: every permutation for N <= all_orders_up_to_n, else topological / reversed / by id. Families: 'paths' = every assignment of (response path, merge path) from the path menu to the fetches, modes waves and schedule (EnableScheduleFetches); 'multi' = every assignment of fetch kinds (plain / entity fetches on two data sources; for the largest N a fixed scheme: fetches with dependencies are entity fetches, data source by id parity) under one or two path schemes, modes waves+multi and schedule+multi (EnableMultiFetch; without it the fetch kind does not influence the tree); 'dedup' = base DAG plus one byte-identical copy of one fetch whose dependants choose the original, the copy or both. Schedule modes run with ascending and descending map iteration order in package postprocess. A distinct outcome is a distinct fetch-tree shape (Sequence/Parallel nesting with fetch ids).")
+	run.Rule("part (a): every labelled dependency DAG on N fetch ids (N <= max_n; unique layered enumeration checked against a brute-force enumeration for N <= 4 and against OEIS A003024), as a flat plan of *resolve.SingleFetch, through postprocess.NewProcessor(opts).Process. Raw fetch-list order: every permutation for N <= all_orders_up_to_n, else topological / reversed / by id. Families: 'paths' = every assignment of (response path, merge path) from the path menu to the fetches, modes waves and schedule (EnableScheduleFetches); 'multi' = every assignment of fetch kinds (plain / entity fetches on two data sources; for the largest N a fixed scheme: fetches with dependencies are entity fetches, data source by id parity) under one or two path schemes, modes waves+multi and schedule+multi (EnableMultiFetch; without it the fetch kind does not influence the tree); 'dedup' = base DAG plus one byte-identical copy of one fetch whose dependants choose the original, the copy or both. Schedule modes run with ascending and descending map iteration order in package postprocess. 'history' = ONE Processor processes two plans (every ordered pair of a pool of small plans; thorough also every ordered triple of the smallest) in sequence, in all four modes: the last tree is judged by the oracle and must equal the tree a fresh Processor builds for the same plan. Fetch ids are labels of the enumeration, i.e. every assignment of ids to the nodes of every DAG occurs (ids not in topological order included). At the largest N of the quick tier only the raw order by id is used and DAGs with more than waves_only_above_edges edges run only the waves mode. A distinct outcome is a distinct fetch-tree shape (Sequence/Parallel nesting with fetch ids).")
 	run.Assume(
 		"tree semantics are those of resolve.Loader: resolveSerial runs children in order, resolveParallel runs them concurrently and waits for all (read in loader.go; three formulations of 'x completes before y starts' - LCA rule, predecessor walk, exhaustive executor simulation - are compared on every tree)",
 		"expected dependency edges = declared DependsOnFetchIDs (a removed duplicate is replaced by the kept identical request) + for a nested request without declared dependencies every request whose (response path + merge path) is a segment-wise prefix of its response path",
@@ -505,6 +580,11 @@ func checkStructure(run *vk.Run) {
 	run.Bound("multi_path_schemes_per_n", cfg.multiSchemes)
 	run.Bound("dedup_base_max_n", cfg.dedupMaxBase)
 	run.Bound("descending_map_order_up_to_n", cfg.mapDescUpTo)
+	run.Bound("raw_order_by_id_only_at_n", cfg.byIDOnlyAtN)
+	run.Bound("waves_only_above_edges_per_n", cfg.lightAboveEdges)
+	run.Bound("history_pool_variants_up_to_n", cfg.histVariantsN)
+	run.Bound("history_pairs_plain_up_to_n", cfg.histPlainN)
+	run.Bound("history_triples_plain_up_to_n", cfg.histTriplesN)
 	run.Bound("executor_simulation_up_to_n", cfg.simulateUpTo)
 	var menuText []string
 	for _, p := range pathMenu {
@@ -555,7 +635,7 @@ func checkStructure(run *vk.Run) {
 	defer debug.SetMemoryLimit(debug.SetMemoryLimit(192 << 20))
 
 	var caseIndex int64
-	expired := false
+	expired := x.exploreHistories()
 	for n := 1; n <= cfg.maxN && !expired; n++ {
 		var count int64
 		enumDAGs(n, func(d *dag) bool {
@@ -602,10 +682,23 @@ func checkStructure(run *vk.Run) {
 func (x *explorer) exploreDAG(d *dag) {
 	n := d.n
 	var orders [][]int
-	if n <= x.cfg.allOrdersUpTo {
+	switch {
+	case n <= x.cfg.allOrdersUpTo:
 		orders = allPerms(n)
-	} else {
+	case x.cfg.byIDOnlyAtN[n]:
+		orders = [][]int{allPerms(n)[0]}
+	default:
 		orders = threeOrders(d)
+	}
+	light := false
+	if max := x.cfg.lightAboveEdges[n]; max > 0 {
+		edges := 0
+		for f := 0; f < n; f++ {
+			for m := d.deps[f]; m != 0; m &= m - 1 {
+				edges++
+			}
+		}
+		light = edges > max
 	}
 	ps := &planSpec{Part: "a", Fetches: make([]fetchSpec, n)}
 	for f := 0; f < n; f++ {
@@ -657,13 +750,17 @@ func (x *explorer) exploreDAG(d *dag) {
 				ps.Fetches[f].Path = int(v[f])
 				ps.Fetches[f].Kind = kindPlain
 			}
-			runOrdersAndModes([]int{0, modeSchedule})
+			if light {
+				runOrdersAndModes([]int{0})
+			} else {
+				runOrdersAndModes([]int{0, modeSchedule})
+			}
 			return true
 		})
 	}
 
 	// family "multi"
-	if x.cfg.multiAtN[n] {
+	if x.cfg.multiAtN[n] && !light {
 		ps.Family = "multi"
 		// Without EnableMultiFetch the kind of a fetch has no influence on the
 		// organisation of the tree (covered by family "paths"), so only the two
@@ -804,6 +901,138 @@ func (x *explorer) exploreDedup(d *dag) {
 			return true
 		})
 	}
+}
+
+// exploreHistories: ONE Processor processes two (three) plans in sequence; the
+// last plan's tree is judged by the oracle and compared with the tree a fresh
+// Processor builds for the same plan.
+func (x *explorer) exploreHistories() (expired bool) {
+	type entry struct {
+		ps    planSpec
+		plain bool
+		n     int
+	}
+	var pool []entry
+	for n := 1; n <= x.cfg.histPlainN || n <= x.cfg.histVariantsN; n++ {
+		enumDAGs(n, func(d *dag) bool {
+			mk := func() planSpec {
+				ps := planSpec{Part: "a", Family: "history", Fetches: make([]fetchSpec, n), Order: allPerms(n)[0]}
+				for f := 0; f < n; f++ {
+					ps.Fetches[f] = fetchSpec{ID: f, Deps: bitsOf(d.deps[f]), Same: f}
+				}
+				return ps
+			}
+			pool = append(pool, entry{ps: mk(), plain: true, n: n})
+			if n > x.cfg.histVariantsN {
+				return true
+			}
+			// variant: fetches with dependencies are entity fetches on one data source
+			ent := mk()
+			any := false
+			for f := 0; f < n; f++ {
+				if d.deps[f] != 0 {
+					ent.Fetches[f].Kind = kindBatchS1
+					any = true
+				}
+			}
+			if any {
+				pool = append(pool, entry{ps: ent, n: n})
+			}
+			// variant: fetches without dependencies, except the one with the lowest id, are nested at "a"
+			nest := mk()
+			first, any := true, false
+			for f := 0; f < n; f++ {
+				if d.deps[f] == 0 {
+					if !first {
+						nest.Fetches[f].Path = 1
+						any = true
+					}
+					first = false
+				}
+			}
+			if e := expect(&nest); any && !e.cyclic {
+				pool = append(pool, entry{ps: nest, n: n})
+			}
+			return true
+		})
+	}
+	if x.run.Shard() == 0 {
+		x.run.Count("history_pool_plans", int64(len(pool)))
+	}
+	type sigKey struct {
+		j, mode int
+		desc    bool
+	}
+	fresh := map[sigKey]string{}
+	modes := []int{0, modeSchedule, modeMulti, modeSchedule | modeMulti}
+	var idx int64
+	runHistory := func(before []int, j int) bool {
+		mine := x.run.Mine(idx)
+		idx++
+		if !mine {
+			return true
+		}
+		if x.run.Expired() {
+			return false
+		}
+		ps := pool[j].ps.clone()
+		for _, b := range before {
+			ps.Before = append(ps.Before, *pool[b].ps.clone())
+		}
+		for _, m := range modes {
+			for _, desc := range []bool{false, true} {
+				if desc && (m&modeSchedule == 0 || setMapDesc == nil) {
+					continue
+				}
+				ps.Mode, ps.MapDesc = m, desc
+				k := sigKey{j, m, desc}
+				sig, ok := fresh[k]
+				if !ok {
+					solo := ps.clone()
+					solo.Before = nil
+					if r := evaluate(solo, false, ""); r.tree != nil && !r.panicked {
+						sig = r.tree.signature()
+					} else {
+						sig = "no tree"
+					}
+					fresh[k] = sig
+				}
+				x.freshSig = sig
+				x.runCase(ps)
+				x.freshSig = ""
+			}
+		}
+		if x.evals >= 4096 {
+			x.flush()
+		}
+		return true
+	}
+	for i := range pool {
+		for j := range pool {
+			if !runHistory([]int{i}, j) {
+				return true
+			}
+		}
+	}
+	if t := x.cfg.histTriplesN; t > 0 {
+		var small []int
+		for i := range pool {
+			if pool[i].plain && pool[i].n <= t {
+				small = append(small, i)
+			}
+		}
+		for _, a := range small {
+			for _, b := range small {
+				for _, c := range small {
+					if !runHistory([]int{a, b}, c) {
+						return true
+					}
+				}
+			}
+		}
+	}
+	x.flush()
+	return false
 }
 
 // ---------------------------------------------------------------------------
